@@ -592,6 +592,10 @@ class ClientDriver(ReorgDriver):
                     sub = {k: v for k, v in avail.items() if v[2] == -1} or avail
                 else:
                     sub = avail
+                last = getattr(self, 'last_mp_tx', None)
+                if op.get('linear') and last is not None and last.hash in w.daemon.mempool:
+                    # each transaction spends (only) outputs of the one before: a chain as deep as it is long
+                    sub = {k: v for k, v in avail.items() if k[0] == last.hash} or sub
                 tx = w.gen.make_tx(rng, dict(sub))
                 if w.daemon.add_mempool_tx(tx):
                     self.probe('mp.added')
@@ -1237,6 +1241,12 @@ class MempoolFamily(SubsFamily):
                 for _ in range(rng.randint(1, 4)):
                     plan.append(dict(op='mp_evict', k=rng.randrange(300), at=round(rng.uniform(a, b), 2)))
                 plan.append(dict(op='wait', dt=b + rng.choice([6.0, 15.0])))
+            if rng.random() < 0.1:
+                # motif: one long chain of unconfirmed transactions (each spending the one before) seen for the first
+                # time in a single refresh, in whatever order the daemon lists it
+                plan.append(dict(op='mp_add', n=rng.choice([60, 120, 200]), chain=1.0, linear=True, seed=rng.getrandbits(32)))
+                plan.append(dict(op='wait', dt=rng.choice([8.0, 16.0])))
+                plan.append(dict(op='settle'))
             if rng.random() < 0.12:
                 # motif: the daemon is merely slow - one batch of raw transactions takes much longer than several
                 # refresh periods (well inside the HTTP client's 5-minute limit) while nothing else changes: the
